@@ -855,6 +855,19 @@ func (fr *Frame) execLoopCut(l *Loop, in []*Edge) map[*ssa.BasicBlock][]*Edge {
 		lc = c.Loops[l.ord]
 	}
 	fname := shortFuncName(fr.fn.String())
+	// range loops: the hidden index never drops below -1 (checked like any invariant)
+	for _, phi := range phis {
+		if phi.Comment == "rangeindex" {
+			n, _ := parseSpec("-1 <= rangeindex")
+			nlc := &LoopContract{Invariants: []Clause{{Expr: n, Src: "-1 <= rangeindex (automatic for range loops)"}}}
+			if lc != nil {
+				nlc.Invariants = append(nlc.Invariants, lc.Invariants...)
+				nlc.Decreases = lc.Decreases
+			}
+			lc = nlc
+			break
+		}
+	}
 
 	// 1. invariant on entry
 	fr.reach, fr.st = reachIn, pre
